@@ -594,7 +594,7 @@ pub async fn run(ctx: &Ctx, rep: &mut ShardReport) {
     let mut rng = Rng::new(ctx.seed ^ 0xC11C11 ^ ((ctx.shard as u64) << 20));
     let mut k = 0u64;
     let mut tampered = 0u64;
-    while ctx.time_left() {
+    while ctx.time_left() && (ctx.thorough() || k < 240) {
         let hseed = ctx.hist_seed(k);
         k += 1;
         rep.histories += 1;
@@ -629,7 +629,9 @@ pub async fn run(ctx: &Ctx, rep: &mut ShardReport) {
         // (c) on a share of the journals produced (the enumeration dominates the cost)
         if let Some((bytes, enc)) = journal {
             let budget_ok = ctx.time_left();
-            let want = if ctx.thorough() { k % 2 == 0 } else { tampered < 2 || k % 40 == 0 };
+            // quick tier: one enumeration up front per shard, then one in 40, and a fixed number of histories per shard, so that
+            // a machine with few cores does the same work as a fast one (just later) instead of spending its whole budget on the enumerations
+            let want = if ctx.thorough() { k % 2 == 0 } else { tampered < 1 || k % 40 == 0 };
             let max_len = if ctx.thorough() { 6000 } else { 1500 };
             if budget_ok && want && bytes.len() < max_len {
                 tampered += 1;
